@@ -95,8 +95,8 @@ def impl_opts(oj, text):
         kw["tzinfos"] = lambda _name, _off: (K.tzobj(3) if _name else None)
     mode = oj.get("tzids", 0)
     if mode == 0:
-        names = set(K.POOL_NAMES) | set(re.findall("(?i)TZID=([^:]+):", text)) | \
-            set(re.findall("(?i)TZID=([^:]+):", text.replace("\r\n ", "").replace("\n ", "")))
+        names = set(K.POOL_NAMES) | set(re.findall("(?i)TZID=([^:;]+)[:;]", text)) | \
+            set(re.findall("(?i)TZID=([^:;]+)[:;]", text.replace("\r\n ", "").replace("\n ", "")))
         tzmap = {}
         for n in names:
             t = K.tztag(tz.gettz(n)) if all(ord(c) < 128 for c in n) and "\x00" not in n else 0
@@ -697,7 +697,7 @@ def eval_prims(o, cases, issues, stats):
         return lines
     ops = [(0, lambda s: K.e_str(s.upper())), (1, lambda s: lst(s.split())), (2, lambda s: lst(s.splitlines())),
            (3, py_int), (4, lambda s: K.e_str(s.strip())), (5, lambda s: K.e_str(s.rstrip())),
-           (6, lambda s: lst(re.findall("(?i)TZID=(?P<name>[^:]+):", s))), (9, lambda s: lst(unfold(s)))]
+           (6, lambda s: lst(re.findall("(?i)TZID=(?P<name>[^:;]+)[:;]", s))), (9, lambda s: lst(unfold(s)))]
     reqs, exps = [], []
     for s in cases:
         for op, f in ops:
@@ -763,16 +763,7 @@ def m_firstweekday(p):
     return p.get("stream") == "roundtrip" and inp.get("fwd", 0) != 0 and (inp.get("kw") or {}).get("wkst") in (0, {"wd": 0})
 
 
-def m_tzid_followed(p):
-    # a TZID parameter that is followed by another parameter ('DTSTART;TZID=X;VALUE=DATE-TIME:...'):
-    # the regex takes 'X;VALUE=DATE-TIME' as the name, the lookup fails and the zone is dropped
-    inp = p.get("input") or {}
-    t = inp.get("text", "").replace("\r\n ", "").replace("\n ", "")
-    return p.get("stream") in ("zoned", "spelling", "regression") and \
-        re.search(r"TZID=[^:;\s]*;[^:\s]*:", t, re.I) is not None
-
-
-MATCHERS = {"c13_wkst_mo_firstweekday": m_firstweekday, "c13_tzid_followed_by_parameter": m_tzid_followed}
+MATCHERS = {"c13_wkst_mo_firstweekday": m_firstweekday}
 
 
 # ------------------------------------------------------------------ main
